@@ -4,6 +4,25 @@ from .ledger import Ledger, UnmanagedLedger, ZERO
 from .engine import Undecided
 
 _cache = {}
+
+
+def callee_witnesses(L, root):
+    """for a violation at `root`: the local callees (awaited helpers, closures) that themselves end with a non-zero
+    ledger, each with its own witness path - the root's path only says `future of X dropped` / `X completed`"""
+    out = []
+    for p, (exits, _) in L.results.items():
+        if p == root.path:
+            continue
+        b = L.prog.bodies.get(p)
+        if b is None:
+            continue
+        seen = set()
+        for e in exits:
+            if any(f in e.flags for f in L.IGNORE_FLAGS) or e.vec == L.ZERO or (e.kind, e.vec) in seen:
+                continue
+            seen.add((e.kind, e.vec))
+            out.append('%s %s with %s along %s' % (b.name.split('::', 2)[-1], {'return': 'returns', 'unwind': 'unwinds', 'cancel': 'is abandoned'}[e.kind], e.vec, ' -> '.join(L.witness(b, e))[:400]))
+    return out[:4]
 COMP_NAMES = ('capacity (permits + objects out)', 'size (objects the pool counts vs objects that exist)', 'users (getters in flight + objects out)')
 
 
@@ -66,6 +85,9 @@ def ledger_obligations(ctx, r, rule, comps, only=None, kinds=('return', 'unwind'
             if bad:
                 e = bad[0]
                 detail = '%s exit with ledger %s (E1 capacity, E2 size, E3 users) along: %s' % (kind, e.vec, ' -> '.join(L.witness(b, e))[:900])
+                cw = callee_witnesses(L, b)
+                if cw:
+                    detail += ' || inside: ' + ' | '.join(cw)
             label = {'return': 'returns', 'unwind': 'unwinds from a panic in user code', 'cancel': 'is abandoned at a suspension point'}[kind]
             ctx.ob(rule, 'books balance when %s %s [%s]' % (b.name.replace('deadpool::managed::', ''), label, ', '.join('E%d' % (c + 1) for c in cs)),
                    not bad, ctx.where(b), detail, construct='ledger:%s:%s' % (b.name, kind), sites=['%d exit states' % len(es)])
@@ -129,6 +151,9 @@ def uledger_obligations(ctx, r, rule):
             if bad:
                 e = bad[0]
                 detail = '%s exit with ledger %s (%s) along: %s' % (kind, e.vec, '; '.join(names), ' -> '.join(L.witness(b, e))[:900])
+                cw = callee_witnesses(L, b)
+                if cw:
+                    detail += ' || inside: ' + ' | '.join(cw)
             label = {'return': 'returns', 'unwind': 'unwinds from a panic in user code', 'cancel': 'is abandoned at a suspension point'}[kind]
             ctx.ob(rule, 'books balance when %s %s (open pool)' % (b.name.replace('deadpool::unmanaged::', ''), label), not bad, ctx.where(b), detail,
                    construct='uledger:%s:%s' % (b.name, kind), sites=['%d exit states' % len(es)])
